@@ -724,6 +724,11 @@ for name, call, extra in [
     ("wrong arity in a branch that is not taken", "(OP.add(1) if tr(False) else 'ok')", ""),
     ("wrong arity of a unary operator", "(OP.not_(1, 2) if tr(False) else 'ok')", ""),
     ("wrong arity, executed", "OP.sub(tr(1))", ""),
+    ("concat of non-sequences (not a catalogue operator: must stay a call)", "OP.concat(tr(1), tr(2))", ""),
+    ("concat of sequences", "OP.concat(tr([1]), tr([2]))", ""),
+    ("truth", "OP.truth(tr([]))", ""),
+    ("index of a non-integer", "OP.index(tr(1.5))", ""),
+    ("neg", "OP.neg(tr(True))", ""),
     ("keyword argument, executed", "OP.add(tr(1), tr(2), x=tr(3))", ""),
     ("keyword argument in a branch that is not taken", "(OP.lt(1, 2, **{}) if tr(False) else 'ok')", ""),
     ("empty ** mapping", "OP.getitem(tr([5, 6]), tr(1), **tr({}))", ""),
